@@ -15,6 +15,7 @@ from collections import Counter
 
 import common
 import detect_tie
+import kbd_geometry
 import seg_gen
 from consts import trainer_seg
 
@@ -25,6 +26,10 @@ TRUSTED = [
     "str.isalpha/isdigit/isupper/lower/upper of the pool characters as reported by the running interpreter (gen/Unicode_gen.v); "
     "characters outside the pool are never generated",
     "the harness parses label strings ('A12' -> LA 12) and base-structure strings by a regular expression",
+    "'adjacent keys' = keys of an ANSI keyboard (US QWERTY / Russian JCUKEN legends, both shift states) that are side by side in a row or "
+    "in neighbouring rows with overlapping spans, rows staggered 0 / 1.5 / 1.75 / 2.25 key widths from the key left of 1 "
+    "(harness/kbd_geometry.py, written down a second time in coq/theories/KbdGeometry.v; Coq evaluates its copy on the strings the "
+    "harness judged)",
 ]
 ASSUMES = [
     "password accepted by the input filter (non-empty); the theorems hold for every string over the pool table + default class",
@@ -239,6 +244,9 @@ def expected_counters(all_secs):
     return e, f
 
 
+K_SEGMENTS = set()      # every keyboard segment the oracle saw in this run (the Coq copy of the geometry judges them too)
+
+
 def oracle(kb, ctxs, tlds, kw, pre, hist, counts, mw, pws, secs_list, counters, raised):
     """the property on what the implementation did; returns violations"""
     vio = []
@@ -297,6 +305,11 @@ def oracle(kb, ctxs, tlds, kw, pre, hist, counts, mw, pws, secs_list, counters, 
                 if len(text) < 4 or len(classes) < 2 or not kb.is_walk(text):
                     v("keyboard-unsound" + cls, "keyboard segment %r is not a walk of >= 4 adjacent keys mixing classes, %s"
                       % (text, shown), pw)
+                # ... and adjacent on the keyboard itself, not only in the tables of the source
+                if not kbd_geometry.is_walk(text):
+                    v("keyboard-unsound:geometry" + cls, "keyboard segment %r is not a walk over physically adjacent keys of one "
+                      "keyboard (%s), %s" % (text, kbd_geometry.first_bad_step(text), shown), pw)
+                K_SEGMENTS.add(text)
         # multi-word: maximal groups of adjacent alpha segments
         i = 0
         while i < len(secs):
@@ -671,6 +684,183 @@ def long_stage(ctx, kb, ctxs, tlds, kw, dist, P):
     return vio, shards, shard_cases, n_eval, facts_ok
 
 
+# ---------------------------------------------------------------- keyboard geometry
+
+PINNED_LAYOUTS = "data/kbd_layouts.json"
+
+
+def geometry_obligations(ctx, dist):
+    """(1) layout-tables-pinned: the layout tables extracted from the source equal the committed copy harness/data/kbd_layouts.json
+    (is_next_on_keyboard reads a key's list index as its column: a changed row list is a changed keyboard, and the theorems that
+    the model's adjacency is physical adjacency were proved about these tables).
+    (2) geometry:code-adjacency-within-physical: every ordered pair of keys the real find_keyboard_row_column /
+    is_next_on_keyboard call neighbours on a layout is a pair of physically adjacent keys (exhaustive); the table of
+    differences goes into the evidence."""
+    import os
+    out = []
+    try:
+        got = [dict({"name": kb["name"]}, **{r: "".join(kb[r]) for r in trainer_seg.ROWS}) for kb in trainer_seg.keyboard_dicts()]
+    except Exception as e:      # noqa: BLE001 - the extractor refuses the source
+        return [("layout-tables-pinned", False, "the layout tables cannot be extracted: %r" % (e,))]
+    with open(os.path.join(os.path.dirname(os.path.dirname(os.path.abspath(__file__))), PINNED_LAYOUTS), encoding="utf-8") as f:
+        want = json.load(f)["layouts"]
+    diffs = []
+    if [g["name"] for g in got] != [w["name"] for w in want]:
+        diffs.append("layouts %r, pinned %r" % ([g["name"] for g in got], [w["name"] for w in want]))
+    for g, w in zip(got, want):
+        for r in trainer_seg.ROWS:
+            if g.get(r) != w.get(r):
+                diffs.append("%s %s is %r, pinned %r" % (g["name"], r, g.get(r), w.get(r)))
+    out.append(("layout-tables-pinned", not diffs, "; ".join(diffs)[:1500]))
+    common.repo_on_path()
+    import importlib
+    m = importlib.import_module("lib_trainer.detection_rules.keyboard_walk")
+    find, is_next = getattr(m, "find_keyboard_row_column", None), getattr(m, "is_next_on_keyboard", None)
+    if find is None or is_next is None:
+        ctx.note("C05: find_keyboard_row_column / is_next_on_keyboard are not functions of keyboard_walk.py any more: the exhaustive "
+                 "comparison of key pairs is left out (the walks around every pair still go through the parser)")
+        return out
+    try:
+        table = kbd_geometry.compare_with_code(trainer_seg.keyboard_dicts(), find, is_next)
+    except Exception as e:      # noqa: BLE001
+        out.append(("geometry:code-adjacency-within-physical", False, "the pair comparison raised %r" % (e,)))
+        return out
+    bad = ["%s: %s" % (name, " ".join(repr(x) for x in t["code_only"][:40])) for name, t in table.items() if t["code_only"]]
+    out.append(("geometry:code-adjacency-within-physical", not bad,
+                "pairs the code calls neighbours that are not adjacent keys - " + "; ".join(bad)[:1500] if bad else ""))
+    dist["geometry_pair_table"] = {name: {"characters": t["characters"], "pairs_code_accepts": t["code"], "pairs_physically_adjacent":
+                                          t["physical"], "code_only": t["code_only"][:200], "physical_only": t["physical_only"][:200]}
+                                   for name, t in table.items()}
+    return out
+
+
+CYR_WORDS = ["пароль", "любовь", "привет", "наташа", "солнышко"]
+GEO_PREFIX = ["", "", "", "пароль", "pass", "99", "!", "любовь", "2019", "a", "я", "#1", "привет", "q", "7"]
+GEO_SUFFIX = ["", "", "", "1", "99", "ю", "!", "пароль", "2020", "x", ".ru", "@mail.ru", "123"]
+
+
+def geometry_strings(ctx, dist):
+    """The generated family: (a) for EVERY ordered pair of keys of each keyboard that are adjacent, or close but not adjacent
+    (two apart in a row, one row apart without overlap, two rows apart, the same key in the other shift state), in all four
+    combinations of shift states: walks of >= 4 keys that hold the step first, last and in the middle and are physical walks
+    everywhere else, steered to a second character class; (b) walks of 4-9 keys with 0-2 near misses, half of them crossing
+    between the digit row and the first letter row in either direction, embedded between words / digits / symbols.
+    -> [(string, family)]"""
+    rng = ctx.rng
+    G = kbd_geometry
+    out = []
+    for layout in G.LAYOUTS:
+        b = G.BOARDS[layout]
+        for kind in ("adjacent", "near"):
+            for a, c in G.all_pairs(b, kind):
+                for sa, sb in [(False, False), (True, True), (False, True), (True, False)]:
+                    for s in G.pair_strings(b, rng, a, c, sa, sb, per_pair=ctx.scale(3, 6)):
+                        out.append((s, "geo-pair-%s-%s" % (kind, layout)))
+    for i in range(ctx.scale(3000, 40000)):
+        layout = "jcuken" if i % 3 else "qwerty"
+        w, _ = G.gen_walk(rng, layout)
+        k = rng.random()
+        if k < 0.35:
+            s = w
+        elif k < 0.85:
+            s = rng.choice(GEO_PREFIX) + w + rng.choice(GEO_SUFFIX)
+        else:
+            s = w + rng.choice(["", "", "1", "!", "я", "a"]) + G.gen_walk(rng, rng.choice(G.LAYOUTS))[0]
+        out.append((s[:40], "geo-walk-" + layout))
+    for s, _ in out:
+        dist["geo_strings_crossing_digit_and_first_letter_row"] += bool(CROSSING_RE.search(s))
+    return out
+
+
+CROSSING_RE = re.compile("[0-9!\"№;%:?*()_+=-][йцукенгшщзхъЙЦУКЕНГШЩЗХЪ]|[йцукенгшщзхъЙЦУКЕНГШЩЗХЪ][0-9!\"№;%:?*()_+=-]")
+
+
+def geometry_stage(ctx, kb, ctxs, tlds, kw, dist, P):
+    """Every generated string through parse() under the empty multi-word history and under one that knows Russian words; whole
+    trainer runs on lists of them; long passwords made of them; some go to the model.
+    -> (violations, shards, shard meta, evaluations, facts ok)"""
+    rng = ctx.rng
+    strings = geometry_strings(ctx, dist)
+    vio, n_eval, facts_ok = [], 0, True
+    hists = [([], []), ([], [w for w in CYR_WORDS + ["password", "pass"] for _ in range(5)])]
+    dets = [(pre, hist, make_detector(pre, hist, kw), spec_counts(pre, hist, kw)) for pre, hist in hists]
+    chosen = [[], []]
+    shapes = set()
+    per_hist = ctx.scale(110, 400)
+    for s, fam in strings:
+        if not set(s) <= P or not seg_gen.check_charwise_lower(s):
+            facts_ok = False
+        hi = 0 if fam.startswith("geo-pair") or rng.random() < 0.5 else 1
+        pre, hist, mw, counts = dets[hi]
+        secs, counters, raised = run_impl(mw, [s])
+        n_eval += 1
+        here = oracle(kb, ctxs, tlds, kw, pre, hist, counts, mw, [s], secs, counters, raised)
+        vio += here
+        dist["fam_" + fam] += 1
+        if raised:
+            dist["raised"] += 1
+            continue
+        ks = [t for t, l in secs[0] if l and l[0] == "K"]
+        if ks:
+            dist["geo_strings_with_keyboard_segment"] += 1
+            dist["geo_keyboard_segments_crossing_digit_and_first_letter_row"] += any(CROSSING_RE.search(t) for t in ks)
+            dist["geo_keyboard_segments_cyrillic"] += any(any(ord(c) > 0x400 for c in t) for t in ks)
+        shape = (shape_of(secs[0]), fam, bool(ks))
+        if not here and len(chosen[hi]) < per_hist and (shape not in shapes or (ks and rng.random() < 0.05)):
+            shapes.add(shape)
+            chosen[hi].append(([s], secs, counters))
+    # long passwords: hundreds of such walks in a row
+    pre, hist, mw, counts = dets[0]
+    for i in range(ctx.scale(8, 60)):
+        ws = [kbd_geometry.gen_walk(rng, "jcuken" if i % 2 else None)[0] for _ in range(rng.choice([3, 8, 40]))]
+        sep = rng.choice(["", "", "!", "я", "7", " "])
+        s = sep.join(rng.choice(ws) for _ in range(rng.randint(101, 220)))
+        if not set(s) <= P or not seg_gen.check_charwise_lower(s):
+            facts_ok = False
+        secs, counters, raised = run_impl(mw, [s])
+        n_eval += 1
+        vio += oracle(kb, ctxs, tlds, kw, pre, hist, counts, mw, [s], secs, counters, raised)
+        dist["fam_geo-long"] += 1
+    # whole trainer runs
+    sc = common.scratch()
+    why = reject_reason()
+    for j in range(ctx.scale(2, 12)):
+        hist = [s for s, _ in rng.sample(strings, min(len(strings), 160))] + [w for w in CYR_WORDS[:3] for _ in range(5)]
+        hist = [p for p in hist if p and p.strip("\r\n") == p and not p.startswith("$HEX[") and not why(p)]
+        rng.shuffle(hist)
+        rp = {"pre": [], "hist": hist}
+        rec = run_trainer_case(sc, "g%d" % j, rp)
+        v, usable = judge_trainer_run(rec, rp, kb, ctxs, tlds, kw, why)
+        vio += v
+        dist["geo_trainer_runs" if usable else "geo_trainer_runs_unusable"] += 1
+        if usable:
+            dist["geo_trainer_run_passwords"] += len(rec.seqs[1])
+    shards, shard_cases = [], {}
+    for hi, (pre, hist, _, _) in enumerate(dets):
+        cases = ["CParse 0%%nat %s [%s] %s" % (cstrs(pws), "; ".join(csections(x) for x in secs), ccounters(c))
+                 for pws, secs, c in chosen[hi]]
+        dist["coq_cases_geometry"] += len(cases)
+        for s0 in range(0, len(cases), 120):
+            name = "geo%d_%02d" % (hi, s0 // 120)
+            shards.append((name, shard_source([(pre, hist)], cases[s0:s0 + 120])))
+            shard_cases[name] = [{"pre": pre, "hist": hist, "pws": pws} for pws, _, _ in chosen[hi][s0:s0 + 120]]
+    return vio, shards, shard_cases, n_eval, facts_ok
+
+
+def geometry_coq_shard(ctx):
+    """the Coq copy of the physical tables (KbdGeometry.phys_walk) on every keyboard segment seen and on generated strings"""
+    rng = ctx.rng
+    sample = sorted(K_SEGMENTS)[:ctx.scale(1500, 6000)]
+    sample += [kbd_geometry.gen_walk(rng)[0] for _ in range(ctx.scale(600, 3000))]
+    sample += ["1qaz", "2edc", "2увс", "1йфя", "ё1йф", "`1qa", "=\\", "]\\", "ъ\\", "ю.", "Ю,", "э.", "a", "ё", "", "aa", "1!"]
+    sample = [s for s in dict.fromkeys(sample)]
+    src = ["From Coq Require Import List ZArith NArith Bool.", "From Pcfg Require Import Str Corr KbdGeometry.",
+           "Import ListNotations.",
+           "Definition cases : list (str * list bool) := " + kbd_geometry.coq_cases(sample) + ".",
+           "Eval vm_compute in (failing phys_case_ok cases)."]
+    return ("zz_geometry", "\n".join(src)), sample
+
+
 RECURSION_PROBE = "1qaz" * 1100
 PROBE_SECONDS = 30
 
@@ -814,6 +1004,17 @@ def run(ctx):
     vio += recursion_probe(ctx, kb, ctxs, tlds, kw, dist)
     vio += trainer_stage(ctx, kb, ctxs, tlds, kw, dist)
     vio += reader_stage(ctx, kb, ctxs, tlds, kw, dist)
+    # keyboard geometry: the tables of the source against the pinned copy and the physical keyboards, the walks around every pair of keys
+    corr.extend(geometry_obligations(ctx, dist))
+    gv, gshards, gmeta, gn, gfacts = geometry_stage(ctx, kb, ctxs, tlds, kw, dist, P)
+    vio += gv
+    shards += gshards
+    shard_cases.update(gmeta)
+    evaluations += gn
+    facts_ok = facts_ok and gfacts
+    gshard, gsample = geometry_coq_shard(ctx)
+    shards.append(gshard)
+    dist["geometry_coq_cases"] = len(gsample)
     corr.append(("unicode-facts:generated-strings-within-pool-and-lower-charwise", facts_ok, ""))
     # the translator tie (gen/Detect_gen.v and its equality proofs): which part no longer checks, if any
     corr.extend(detect_tie.status())
@@ -829,6 +1030,11 @@ def run(ctx):
     for name, idx, log in common.run_case_shards("C05", shards):
         if name == "zz_control":
             corr.append(("control:a-wrong-expectation-is-reported", idx == [1], "" if idx == [1] else "control shard answered %r: %s" % (idx, log[-300:])))
+            continue
+        if name == "zz_geometry":
+            ok = idx == []
+            corr.append(("geometry:coq-tables-agree-with-harness-tables", ok, "" if ok else (
+                "KbdGeometry.phys_walk and kbd_geometry.walk_on differ on %r" % ([gsample[i] for i in idx[:10]],) if idx else log[-600:])))
             continue
         if idx is None:
             corr.append(("parse:" + name, False, log[-800:]))
@@ -847,7 +1053,14 @@ def run(ctx):
             "whole run_trainer runs on FILES: every way a file may begin (byte order mark alone on its line / glued to the first password / doubled, blank lines, "
             "a space or format character alone) x utf-8, utf-8-sig, utf-16 (LE/BE), utf-16-le, utf-16-be x LF / CRLF; long passwords (400-1500 characters: "
             "101-260 keyboard walks in a row, runs of one class, one trigger repeated 100-300 times) through parse() and the model; one probe of 1100 walks "
-            "(4400 characters) through parse() and the whole trainer; non-trivial = at least two different label kinds (two detectors fired)" % n_hist)
+            "(4400 characters) through parse() and the whole trainer; keyboard geometry: every K segment anywhere must be a walk over PHYSICALLY "
+            "adjacent keys of one keyboard (ANSI QWERTY / JCUKEN, harness/kbd_geometry.py, independent of the tables of the source); for every "
+            "ordered pair of keys of both keyboards that are adjacent or close but not adjacent (two apart in a row, one row apart without "
+            "overlap, two rows apart, same key other shift state), plain / shifted / mixed: walks of >= 4 keys holding that step first, last "
+            "and in the middle, steered to a second character class; walks of 4-9 keys with 0-2 near misses, half of them crossing between "
+            "the digit row and the first letter row, alone and between words / digits / symbols, through parse() under two histories, as "
+            "long passwords and through whole trainer runs; all ordered key pairs put to the real is_next_on_keyboard and to the geometry; "
+            "non-trivial = at least two different label kinds (two detectors fired)" % n_hist)
     dist["distinct_shapes"] = len(shapes_all)
     return {"evaluations": evaluations, "distinct_nontrivial": len(nontrivial_shapes), "rule": rule, "samples": samples,
             "dist": dict(dist), "corr": corr, "violations": [shrink(ctx, v) for v in dedup(vio)]}
